@@ -4,6 +4,8 @@ import (
 	"context"
 	"errors"
 
+	"go.temporal.io/api/workflowservice/v1"
+	"go.temporal.io/server/api/adminservice/v1"
 	"go.temporal.io/server/common/api"
 	"go.temporal.io/server/common/log"
 	"google.golang.org/grpc"
@@ -53,7 +55,18 @@ func verifHarness_C16_interceptor() {
 	}
 	ctx := c15Ctx(verifNondetBool("bypass-header"))
 	invoked := 0
-	_, err := ic.Intercept(ctx, nil, &grpc.UnaryServerInfo{FullMethod: full}, func(ctx context.Context, req any) (any, error) {
+	// the request object: the first name found is its top-level namespace field (as the real visit
+	// would report), the others sit deeper (commands, links, blobs); or a request without such a field
+	var req any
+	if nFound > 0 && verifChoose("request-shape", 2) == 1 {
+		verifReach("request-with-top-level-namespace")
+		if isAdmin {
+			req = &adminservice.DescribeMutableStateRequest{Namespace: c16Found[0]}
+		} else {
+			req = &workflowservice.StartWorkflowExecutionRequest{Namespace: c16Found[0]}
+		}
+	}
+	_, err := ic.Intercept(ctx, req, &grpc.UnaryServerInfo{FullMethod: full}, func(ctx context.Context, req any) (any, error) {
 		invoked++
 		return nil, nil
 	})
